@@ -7,6 +7,9 @@
 (*  C01  whatever the interleaving, everything the witness handed out as    *)
 (*       accepted for a log (and what it held at the start and holds at     *)
 (*       the end) lies on ONE append-only history;                          *)
+(*  C03  a call that was refused (also one that lost a race in the store)  *)
+(*       leaves nothing behind: what is held at the end is what was held   *)
+(*       at the start or what some ACCEPTED call returned;                  *)
 (*  C20  the operational counters, read after the run (the production       *)
 (*       binary's /metrics endpoint), count exactly the responses seen.     *)
 (*                                                                         *)
@@ -61,8 +64,10 @@ Monitor ==
     CASE IsUpdateRet /\ Ev.v = "Accept" ->
             Check("C01", "CosignedSetIsOneHistory", \A a \in accd[lastop[Ev.p].log] : OneHistory(a, Ev.val))
       [] Ev.e = "final" ->
+            /\ Check("C03", "RefusedOverlappingCallLeavesNothing",
+                     \A l \in Logs : IF Ev.stored[l] = None THEN accd[l] = {} ELSE Ev.stored[l] \in accd[l])
             \* what is held at the end is something that was handed out (or held at the start), and is the LARGEST of them
-            Check("C01", "HeldIsTheLatestCosigned",
+            /\ Check("C01", "HeldIsTheLatestCosigned",
                   \A l \in Logs : /\ (Ev.stored[l] = None) = (accd[l] = {})
                                   /\ Ev.stored[l] # None => /\ Ev.stored[l] \in accd[l]
                                                             /\ \A a \in accd[l] : SameTree(a, Ev.stored[l]) \/ Extends(a, Ev.stored[l]))
